@@ -79,11 +79,11 @@ def run_tlc(module: str, cfg: str | None = None, *, env: dict | None = None, wor
         m2 = re.search(r"The number of states generated: (\d+)", out)
         if m2:
             gen = dist = int(m2.group(1))
+    plain = [ln for ln in out.splitlines() if not ln.startswith('"')]      # PrintT records may quote anything
     for pat in ("Error:", "is violated", "Deadlock reached", "TLC TIMEOUT", "Exception", "*** Errors"):
-        if pat in out:
-            for ln in out.splitlines():
-                if pat in ln:
-                    errors.append(ln.strip()[:300])
+        for ln in plain:
+            if pat in ln:
+                errors.append(ln.strip()[:300])
     ok = rc == 0 and not errors
     if not ok:
         log(f"[tlc] {module} rc={rc} errors={errors[:5]}")
